@@ -14,13 +14,13 @@ use crate::sweep::{self, Mode, Plan};
 /// (exhaustive threshold in bits, hostile samples per op) for (quick, thorough)
 fn budget(prop: &str, quick: bool) -> (f64, u64) {
     match (prop, quick) {
-        ("C01", true) => (24.0, 1 << 25),
+        ("C01", true) => (24.0, 1 << 26),
         ("C01", false) => (32.0, 1 << 31),
-        ("C02", true) => (16.0, 1 << 24),
+        ("C02", true) => (16.0, 1 << 26),
         ("C02", false) => (32.0, 1 << 30),
         ("C03", true) => (16.0, 1 << 23),
         ("C03", false) => (32.0, 1 << 28),
-        ("C05", true) => (24.0, 1 << 24),
+        ("C05", true) => (24.0, 1 << 26),
         ("C05", false) => (24.0, 1 << 30),
         ("C06", true) => (16.0, 1 << 25),
         ("C06", false) => (32.0, 1 << 28),
